@@ -181,7 +181,7 @@ func (h *SexpHash) DotPathHashGet(env *Zlisp, sym *SexpSymbol) (Sexp, error) {
 
 	//	Q("\n in DotPathHashGet(), about to call nestedPathGetSet() with"+
 	//		"path='%#v\n", path)
-	exp, err := h.nestedPathGetSet(env, path, nil)
+	exp, err := h.nestedPathGetSet(env, path, nil, nil)
 	if err != nil {
 		return SexpNull, err
 	}
@@ -851,7 +851,10 @@ func fillHashHelper(r interface{}, depth int, env *Zlisp, preferSym bool) (Sexp,
 	return SexpNull, nil
 }
 
-func (h *SexpHash) nestedPathGetSet(env *Zlisp, dotpaths []string, setVal *Sexp) (Sexp, error) {
+// viaPkg is the package through which the dot path reached this hash, or nil
+// when the path did not pass through a package; members of a hash reached
+// through a package are private unless capitalised, like package members.
+func (h *SexpHash) nestedPathGetSet(env *Zlisp, dotpaths []string, setVal *Sexp, viaPkg *Stack) (Sexp, error) {
 
 	if len(dotpaths) == 0 {
 		return SexpNull, fmt.Errorf("internal error: in nestedPathGetSet() dotpaths" +
@@ -864,6 +867,12 @@ func (h *SexpHash) nestedPathGetSet(env *Zlisp, dotpaths []string, setVal *Sexp)
 	lenpath := len(dotpaths)
 	//Q("\n in nestedPathGetSet, dotpaths=%#v\n", dotpaths)
 	for i := range dotpaths {
+		if viaPkg != nil {
+			err = errIfPrivate(dotpaths[i], viaPkg)
+			if err != nil {
+				return SexpNull, err
+			}
+		}
 		if setVal != nil && i == lenpath-1 {
 			// assign now
 			err = askh.HashSet(env.MakeSymbol(dotpaths[i][1:]), *setVal)
@@ -1154,7 +1163,7 @@ func (x *SexpHashSelector) AssignToSelection(env *Zlisp, rhs Sexp) error {
 	case *SexpSymbol:
 		path := DotPartsRegex.FindAllString(sym.name, -1)
 		// leave dots in path, they are expected.
-		_, err := x.Container.nestedPathGetSet(env, path, &rhs)
+		_, err := x.Container.nestedPathGetSet(env, path, &rhs, nil)
 		return err
 	}
 	return x.Container.HashSet(x.Select, rhs)
